@@ -435,6 +435,13 @@ func (te *tableEngine) PlayerRedeemChips(joinPlayer JoinPlayer) error {
 	playerState := te.table.State.PlayerStates[playerIdx]
 	playerState.Bankroll += joinPlayer.RedeemChips
 
+	// a player who had no chips can be dealt in again (as after a re-buy)
+	if playerState.Bankroll > 0 {
+		if err := te.sm.UpdatePlayerHasChips(playerState.PlayerID, true); err != nil {
+			return err
+		}
+	}
+
 	te.emitEvent("PlayerRedeemChips", joinPlayer.PlayerID)
 	te.emitTablePlayerStateEvent(playerState)
 	return nil
